@@ -1,6 +1,7 @@
 package prove
 
 import (
+	"sync/atomic"
 	"unsafe"
 
 	"github.com/nelhage/taktician/tak"
@@ -20,10 +21,20 @@ func VerifConsts() (infinity uint32, checkFreq, pn2thr int, eps float64) {
 	return INFINITY, kCheckFrequency, pn2Threshold, epsilon
 }
 
-// VerifAbort stops a runaway Prove (the solver has no limit or cancellation of its own): the table is
-// pulled away, so the solver's next table access panics in its own goroutine, where the harness recovers.
+// VerifAbort stops a runaway Prove (the solver has no limit or cancellation of its own): the length
+// word of the table slice is set to zero (one aligned word, so the solver's goroutine sees either the
+// old or the new length, never a torn slice header), and the solver's next table access panics with a
+// division by zero or an index out of range in its own goroutine, where the harness recovers.
 // Only used on runs whose result is discarded.
-func (d *DFPNSolver) VerifAbort() { d.table.entries = nil }
+func (d *DFPNSolver) VerifAbort() {
+	type sliceHeader struct {
+		data unsafe.Pointer
+		len  int
+		cap  int
+	}
+	h := (*sliceHeader)(unsafe.Pointer(&d.table.entries))
+	atomic.StoreInt64((*int64)(unsafe.Pointer(&h.len)), 0)
+}
 
 // VerifEntry is one occupied table slot: position hash and the bounds stored for it.
 type VerifEntry struct {
